@@ -68,7 +68,7 @@ prop("C02", ["contracts.c02_server", "contracts.c06_localnode"], ["OnRequest", "
               "Network.send_message does not raise (env/net.py)"],
      not_decided=["block transfer on the server side (not implemented by the library: refused with 0x05040001)"])
 
-prop("C01", ["contracts.c01_client"], ["WsInit", "WsWriteSegment", "WsWriteExpedited", "WsClose", "RsInit", "RsRead", "ReqResp", "Upload", "Download", "WsWriteProgress"],
+prop("C01", ["contracts.c01_client"], ["WsInit", "WsWriteSegment", "WsWriteExpedited", "WsClose", "RsInit", "RsRead", "ReqResp", "Upload", "Download", "WsWriteProgress", "WsCloseAfterFailure"],
      bounded=[("bounded.roundtrip", "typed_roundtrip")],
      assumed=["SdoClient.request_response as seen by the streams (env/sdoclient.py); the real function is contracted in ReqResp",
               "upload(): the stream's read() hands back the server's bytes (conclusion of UploadTheorem / RsInit / RsRead); whole "
@@ -163,7 +163,7 @@ prop("C06", ["contracts.c01_client", "contracts.c02_server", "contracts.c04_code
      not_decided=["'no value' is accepted as either 0x060A0023 (what the pinned test-suite expects) or 0x08000024"])
 
 prop("C07", ["contracts.c01_client", "contracts.c02_server", "contracts.c12_blockdown", "contracts.c13_blockup"],
-     ["ReqResp", "WsInit", "WsWriteSegment", "WsWriteExpedited", "RsInit", "RsRead", "BdInit", "BdSend", "BdClose", "BuInit", "BuRead",
+     ["ReqResp", "WsInit", "WsWriteSegment", "WsWriteExpedited", "WsCloseAfterFailure", "RsInit", "RsRead", "BdInit", "BdSend", "BdClose", "BuInit", "BuRead",
       "OnRequest", "OnRequestFresh"],
      bounded=[("bounded.roundtrip", "disturbed_transfers")],
      assumed=["every single disturbance of a response frame is covered by quantifying the response bytes universally in the per-step "
